@@ -49,3 +49,11 @@ both('C01.has_tabs_or_newline.complete@sse2', ['C01', 'C18', 'C02'], 'auto', roo
 OBLS.append(Obl('C01.shorten_path.twin/b12', ['C01', 'C04', 'C02'], 'B(12)', 'c01/shorten_path.c', roots=['shorten_path_sv', 'shorten_path_str'], bufn=12, unwind=14,
                 defines=['STR_CAP=12', 'BUF_START=1'], includes=['spec/urlspec.h', 'spec/scan.h'], enums=[('ada::scheme::type', 'FILE')], solver='cadical', timeout=900,
                 bound='path <= 12 bytes', note='both shorten_path overloads == the Standard\'s "shorten a url\'s path" (lone normalized drive letter of a file URL is kept)'))
+
+OBLS.append(Obl('C01.try_parse_simple_absolute<url_aggregator>.standard/b14', ['C01', 'C10', 'C05', 'C19', 'C02'], 'B(14)', 'c01/fast_path.c',
+                roots=['try_parse_simple_absolute_agg', 'agg_validate'], bufn=14, unwind=17, defines=['STR_CAP=15', 'BUF_START=1'],
+                includes=['spec/urlspec.h', 'spec/scan.h', 'spec/agg_wf.h'], globals=[('omitted', 'const unsigned int'), ('url_aggregator_default', '@default')],
+                enums=[('ada::scheme::type', 'HTTP'), ('ada::scheme::type', 'HTTPS')], solver='cadical', timeout=3000,
+                bound='input <= 14 bytes',
+                note='fast path for absolute http(s) URLs: accepted => the input is in the class the Standard parses to exactly the object built (plain lower-cased domain that '
+                     'does not end in a number, no xn-- label, no dot segments, nothing to encode), offsets partition the href'))
